@@ -195,6 +195,19 @@ def run(tier: str) -> int:
                 compare_traces(rep, pub, ra, rb, "same-object", detail, has_sweep)
         if len(samples) < 4 and i % 37 == 0:
             samples.append({"nodes": nodes, "detail": detail, "outcome": pv["outcome"], "records": [r.get("record_type") for r in t1["records"]]})
+    # ---- a class derived from a concrete processor, traced after its parent was: same records as in a fresh interpreter ------
+    for parent, child, ctx0 in (("TOp1Def", "TOp1DefSub", {}), ("TOp2", "TOp2Sub", {"a": "A", "b": "B"}), ("TOp1", "TOp1Sub", {"a": "A"})):
+        detail = "all"
+        tracegen.traced_run([{"processor": "TSourceDef"}, {"processor": parent}], {"a": "A"}, detail=detail)
+        nodes = [{"processor": "TSourceDef"}, {"processor": child}, {"processor": parent}]
+        here = tracegen.traced_run(nodes, ctx0, detail=detail)
+        with rt.tempdir() as d:
+            fr = fresh_process_records(nodes, ctx0, detail, d)
+        if fr is not None:
+            stats["repro_fresh_process_derived"] = stats.get("repro_fresh_process_derived", 0) + 1
+            compare_traces(rep, {"nodes": nodes, "initial_context": ctx0, "history": f"a traced run of {parent} earlier in the process"},
+                           json.loads(json.dumps(here["records"], default=str)), fr, "fresh-process-vs-after-parent-class", detail, False,
+                           already_normalised_b=True)
     exotic_payloads(rep, stats)
     hostile_data(rep, stats)
     launch_outcomes(rep, stats)
